@@ -103,6 +103,19 @@ def templates():
     add('lr-retried-after-backtrack', 2, ['E'], ['1', '+', '='], lambda n: [
         gs.Rule('stmt', A(S(C(n['E']), T('='), C(n['E'])), C(n['E']))),
         gs.Rule(n['E'], A(S(C(n['E']), T('+'), C('t')), C('t'))), gs.Rule('t', ONE)], entries=['E'])
+    # the recursive call sits in a rule whose right hand side is included, or in the base of a based rule
+    add('through-include', 2, ['E'], ['1', '+'], lambda n: [
+        gs.Rule('pre', S(C(n['E']), T('+'))),
+        gs.Rule(n['E'], A(S(('inc', 'pre'), C('t')), C('t'))), gs.Rule('t', ONE)])
+    add('through-include-optional', 2, ['E'], ['1', '+', '-'], lambda n: [
+        gs.Rule('pre', S(('opt', T('-')), C(n['E']), T('+'))),
+        gs.Rule(n['E'], A(S(('inc', 'pre'), C('t')), C('t'))), gs.Rule('t', ONE)])
+    add('through-base', 2, ['E'], ['1', '+'], lambda n: [
+        gs.Rule('pre', ('opt', S(C(n['E']), T('+')))),
+        gs.Rule(n['E'], C('t'), base='pre'), gs.Rule('t', ONE)])
+    add('based-on-consuming-base', 2, ['E'], ['1', '+'], lambda n: [
+        gs.Rule('pre', ONE),
+        gs.Rule(n['E'], A(S(C(n['E']), T('+')), ('void',)), base='pre')])
     add('mutual-three', 3, ['E', 'X', 'Y'], ['1', '+', '-', '*'], lambda n: [
         gs.Rule(n['E'], A(S(C(n['X']), T('+'), C('t')), C('t'))),
         gs.Rule(n['X'], A(S(C(n['Y']), T('-'), C('t')), C('t'))),
@@ -183,6 +196,8 @@ def shard(m, items, maxlen=5):
         start = nm[entry]
         # the entry rule goes first so that it is also the default start
         rules = [r for r in rules if r.name == start] + [r for r in rules if r.name != start]
+        # an included or base rule has to be defined before the rule that uses it
+        rules = [r for r in rules if r.name == 'pre'] + [r for r in rules if r.name != 'pre']
         g = gs.Grammar(rules=[gs.Rule('top', S(C(start), ('eof',)))] + rules)
         label = '; '.join(gs.render_rule(r) for r in g.rules)
         text = gs.render_grammar(g)
